@@ -239,8 +239,20 @@ def gen_session_case(draw):
             r["max"] = mx
         reqs.append(r)
     _skew(draw, reqs)
-    return {"mode": "session", "who": who, "prefix": reqs[:-1], "probe": reqs[-1],
+    case = {"mode": "session", "who": who, "prefix": reqs[:-1], "probe": reqs[-1],
             "chunks": draw(st.sampled_from([None, None, [7], [1, 64], [8, 8, 1000]]))}
+    if draw(st.integers(0, 3)) == 0:
+        # the identity comes from an authentication service that is asked for every message and
+        # whose answer (the user's groups) changes while the connection stays open; the probe aims
+        # at the object whose policy decides by group
+        gs = st.sampled_from([["admins"], ["staff"], [], ["staff", "admins"], ["admins"], ["staff"]])
+        case["slugs"] = [draw(gs) for _ in range(n + 1)]
+        tu = idx["team"]
+        case["probe"] = dict(case["probe"], items=[draw(st.sampled_from([
+            {"op": "Get", "uid": tu}, {"op": "GetAttributes", "uid": tu}, {"op": "GetAttributeList", "uid": tu},
+            {"op": "Locate", "attrs": [["Name", "n-team"]]}]))])
+        case["probe"].pop("cont", None)
+    return case
 
 
 SESSION_NOW = 1_700_000_200
@@ -290,10 +302,58 @@ def _frame(req):
     return H.encode_request(req)
 
 
+class _SlugsScript(object):
+    """Stands in for `requests` inside auth/slugs.py: every user is known; the groups it reports
+    are those scripted for the message the connection is at."""
+
+    def __init__(self, real):
+        self._real = real
+        self.groups = None
+        self.k = 0
+
+    def get(self, url, **kw):
+        parts = url.rstrip("/").split("/")
+        if parts[-1] == "groups" and len(parts) >= 3 and parts[-3] == "users":
+            return _Resp(200, {"groups": list(self.groups[min(self.k, len(self.groups) - 1)])})
+        if len(parts) >= 2 and parts[-2] == "users":
+            return _Resp(200, {"name": parts[-1]})
+        return _Resp(404)
+
+    def __getattr__(self, name):
+        return getattr(self._real, name)
+
+
+class _Resp(object):
+    def __init__(self, status, body=None):
+        self.status_code = status
+        self._body = body
+
+    def json(self):
+        return self._body
+
+
+SLUGS_SETTINGS = [("auth:slugs", {"enabled": "True", "url": "http://slugs.test:8080/slugs/"})]
+
+
 def run_session_case(spec):
+    if spec.get("slugs"):
+        from kmip.services.server.auth import slugs as slugs_mod
+        real = slugs_mod.requests
+        stub = _SlugsScript(real)
+        stub.groups = spec["slugs"]
+        slugs_mod.requests = stub
+        try:
+            return _run_session_case(spec, stub)
+        finally:
+            slugs_mod.requests = real
+    return _run_session_case(spec, None)
+
+
+def _run_session_case(spec, stub):
     srv, idx = store.fresh_server()
-    buckets, classes = [], ["mode:session"]
+    buckets, classes = [], ["mode:session"] + (["session:groups-from-a-service-that-changes-its-answer"] if stub else [])
     box = {"fresh": None}
+    auth = list(SLUGS_SETTINGS) if stub else None
     try:
         H.CLOCK.now = SESSION_NOW
         try:
@@ -308,20 +368,24 @@ def run_session_case(spec):
 
             def sendall(b):
                 plain(b)
+                if stub is not None:
+                    stub.k = len(conn.sent)         # the next message is message number k
                 if len(conn.sent) == nprefix and box["fresh"] is None:
                     box["fresh"] = srv.fresh_engine_on_copy()
             conn.sendall = sendall
 
         conn, errors = srv.session(b"".join(frames) + pframe, cn=spec["who"],
                                    chunks=spec.get("chunks"), conn_hook=hook,
-                                   max_loops=nprefix + 4)
+                                   max_loops=nprefix + 4, auth_settings=auth)
         if errors or len(conn.sent) != nprefix + 1 or box["fresh"] is None:
             # The session did not answer every frame once although every frame is a well-formed
             # request.  How a session treats bytes is C12's business; here it matters only if
             # the probe, sent alone on a new connection, IS answered: then what happened to it
             # depended on the requests before it.
             fresh = srv.fresh_engine_on_copy()
-            conn2, errors2 = fresh.session(pframe, cn=spec["who"], max_loops=4)
+            if stub is not None:
+                stub.k = nprefix
+            conn2, errors2 = fresh.session(pframe, cn=spec["who"], max_loops=4, auth_settings=auth)
             if not errors2 and len(conn2.sent) == 1:
                 buckets.append(("C11|session|probe-not-answered-behind-earlier-requests",
                                 "%d well-formed requests on one connection: %d answers, loop exceptions %r; "
@@ -329,7 +393,9 @@ def run_session_case(spec):
                                 % (nprefix + 1, len(conn.sent), [repr(e)[:200] for e in errors[:3]])))
             return buckets, True, classes + ["session-irregular"]
         fresh = box["fresh"]
-        conn2, errors2 = fresh.session(pframe, cn=spec["who"], max_loops=4)
+        if stub is not None:
+            stub.k = nprefix
+        conn2, errors2 = fresh.session(pframe, cn=spec["who"], max_loops=4, auth_settings=auth)
         if errors2 or len(conn2.sent) != 1:
             return [], False, classes + ["session-irregular-fresh"]
         probe = spec["probe"]
